@@ -22,6 +22,7 @@
 #include <unistd.h>
 
 #include <algorithm>
+#include <atomic>
 #include <type_traits>
 #include <sstream>
 
@@ -30,6 +31,7 @@
 namespace vh {
 thread_local int t_bypass = 0;
 Sim g;
+std::atomic<unsigned> g_yield_ppm{0};
 
 static bool starts_with(const std::string& s, const std::string& p) {
   return s.size() >= p.size() && s.compare(0, p.size(), p) == 0;
@@ -697,6 +699,42 @@ void __cxa_throw(void* obj, void* tinfo, void (*dest)(void*)) {
   real(obj, tinfo, dest);
   __builtin_unreachable();
 }
+
+// ---------------------------------------------------------------- schedule perturbation (TSan flavor only)
+// Seeded yields at real suspension points of the code under test: every mutex acquisition /
+// release made through the PLT (std::mutex in oomd's objects) may be followed by a yield or
+// a short sleep.  The call is forwarded unchanged, so ThreadSanitizer still sees the
+// synchronisation itself.  Off unless a threaded driver sets vh::g_yield_ppm.
+#if defined(__SANITIZE_THREAD__)
+static void maybe_yield() {
+  unsigned ppm = vh::g_yield_ppm.load(std::memory_order_relaxed);
+  if (!ppm) {
+    return;
+  }
+  static thread_local uint64_t x = 88172645463325252ULL ^ (uint64_t)(uintptr_t)&x;
+  x ^= x << 13;
+  x ^= x >> 7;
+  x ^= x << 17;
+  if ((x % 1000000) < ppm) {
+    if (x & 0x100000) {
+      usleep((x >> 24) % 200);
+    } else {
+      sched_yield();
+    }
+  }
+}
+int pthread_mutex_lock(pthread_mutex_t* m) {
+  REALFN(fnptr<int(pthread_mutex_t*)>, "pthread_mutex_lock");
+  maybe_yield();
+  return real(m);
+}
+int pthread_mutex_unlock(pthread_mutex_t* m) {
+  REALFN(fnptr<int(pthread_mutex_t*)>, "pthread_mutex_unlock");
+  int r = real(m);
+  maybe_yield();
+  return r;
+}
+#endif
 
 #ifdef VERIF_HAVE_SYSTEMD
 struct sd_bus;
